@@ -17,7 +17,8 @@ EXPLANATION = (
     "over a prefix of the ancestor chain, reader stores it verbatim: read(write(ix)) != ix, findings/repro f4) is NOT a "
     "violation of the statement's 'or at least answers every query with the same chunks' clause once min_offset takes the "
     "minimum over all bins ending at or after the start (fix 42bd27d), so no identity-or-inverse rule is armed for it."
-    " (R2, path form) in all six write_bins bodies no success exit is reachable once the absence edges of every test of `metadata` and the write_metadata call are removed: the pseudo-bin is written on every path on which metadata is present; (R6) reg2bin and reg2bins use the same coordinate convention (exactly one `- 1` on start and on end before the shifts); (R7) append-buffer discipline of the text index readers (crai, fai, tabix names): the rule that reports the genuine defect F14 (crai read_index), repaired in /repo.")
+    " (R2, path form) in all six write_bins bodies no success exit is reachable once the absence edges of every test of `metadata` and the write_metadata call are removed: the pseudo-bin is written on every path on which metadata is present; (R6) reg2bin and reg2bins use the same coordinate convention (exactly one `- 1` on start and on end before the shifts); (R7) append-buffer discipline of the text index readers (crai, fai, tabix names): the rule that reports the genuine defect F14 (crai read_index), repaired in /repo."
+    " (R8) optimize_chunks prunes by a per-chunk test of that chunk's end, never by a prefix cut or binary search over chunk ends in a list ordered by start.")
 ASSUMPTIONS = ["field layout (order and widths) of the index files is pinned by the unit tests (one literal per field encoder/decoder)"]
 NOT_DECIDED = ["reg2bin ∈ reg2bins containment and optimize_chunks coverage for every geometry (pure interval arithmetic)",
                "byte layout equality of writer and reader beyond the pairing clauses above",
@@ -132,6 +133,34 @@ def run(ctx):
 
     ctx.rule("C17.R7", "A10 append-buffer discipline: the text index readers (crai, fai, tabix names) reset their line buffer before every appended line")
     a10.discipline_rule(ctx, "C17.R7", r"^<?noodles_(cram::crai|fasta::fai|fastq::fai|csi::io)", 12)
+
+    ctx.rule("C17.R8", "pruning is per chunk: optimize_chunks drops a chunk by testing THAT chunk's end against min_offset (filter/retain), never by a "
+                       "prefix cut or binary search (partition_point, skip_while, ...) over a list that is ordered by start, not by end")
+    fo = ctx.anchor("C17.R8", "noodles_csi::binning_index::optimize_chunks")
+    if fo is not None:
+        fam = fb.family(fo.key)
+        PRE = re.compile(r"::(partition_point|binary_search|binary_search_by|binary_search_by_key|skip_while|take_while|position|rposition)$")
+        PER = re.compile(r"::(filter|retain|retain_mut|filter_map)$")
+
+        def closure_reads_end(g, c):
+            for a_ in c["args"]:
+                l = C.op_local(a_)
+                d = C.single_def(g, l) if l is not None else None
+                if d is not None and d[0] == "=" and d[3][0] == "agg" and d[3][1] == "closure":
+                    if any((cc.get("f") or "").endswith("chunk::Chunk::end") for h in fb.family(d[3][2]) for _b, cc in h.calls()):
+                        return True
+            return False
+        pre = [(g, b, c) for g in fam for b, c in g.calls() if PRE.search(c.get("f") or "") and closure_reads_end(g, c)]
+        per = [(g, b, c) for g in fam for b, c in g.calls() if PER.search(c.get("f") or "") and closure_reads_end(g, c)]
+        if pre:
+            g, b, c = pre[0]
+            ctx.violation("C17.R8", "C17.R8/prefix-cut-on-end/%s/%s" % (fo.key, c["f"].split("::")[-1]),
+                          "optimize_chunks prunes with %s over chunk ends: the list is ordered by start, so a long chunk that ends beyond "
+                          "min_offset can sit in front of the cut and is dropped although a retained range needs it" % c["f"].split("::")[-1], g.loc(b))
+        elif not per:
+            ctx.violation("C17.R8", "C17.R8/ANCHOR-MISSING/%s/filter" % fo.key, "optimize_chunks no longer filters chunks by their end", fo.loc())
+        else:
+            ctx.ok("C17.R8", fo.key + " :: per-chunk end test", "%d filter site(s), no prefix cut" % len(per), fo.loc())
 
     ctx.rule("C17.R6", "A7 sibling agreement: reg2bin (indexing side) and reg2bins (query side) use the same coordinate convention")
     binning_convention_rule(ctx, "C17.R6")
